@@ -39,8 +39,8 @@ func Load(msg proto.Message, dir string, fmt format.Format, options ...Option) e
 		path = filepath.Join(dir, name+format.Format2Ext(fmt))
 	}
 	_, sheetOpts := confgen.ParseMessageOptions(md)
-	if sheetOpts.Patch != tableaupb.Patch_PATCH_NONE {
-		return loadWithPatch(msg, path, fmt, sheetOpts.Patch, opts)
+	if sheetOpts.GetPatch() != tableaupb.Patch_PATCH_NONE {
+		return loadWithPatch(msg, path, fmt, sheetOpts.GetPatch(), opts)
 	}
 	return load(msg, path, fmt, opts)
 }
